@@ -76,6 +76,31 @@ Replace(cs, old, new, count) ==
          THEN new \o Replace(SubSeq(cs, Len(old) + 1, Len(cs)), old, new, count - 1)
          ELSE <<cs[1]>> \o Replace(Tail(cs), old, new, count)
 
+\* number of non-overlapping occurrences from the left
+RECURSIVE OccCount(_, _)
+OccCount(cs, old) ==
+    IF old = <<>> \/ Len(cs) < Len(old) THEN 0
+    ELSE IF MatchAt(cs, 1, old) THEN 1 + OccCount(SubSeq(cs, Len(old) + 1, Len(cs)), old)
+    ELSE OccCount(Tail(cs), old)
+
+\* the filter on values, per autoescape setting `ae` (C23: the count means the same in every configuration).
+\* Autoescaping off, or nothing safe involved: a plain replacement on the texts.  Autoescaping on and the
+\* subject, the search string or the replacement is safe: the replacement is done on markup -- whatever is
+\* not safe of the subject and the replacement is escaped first -- and the result is safe; the search string
+\* never reaches the output and is looked for in the markup text as it is (MarkupSafe 3).
+AnySafe(s, old, new) == s.t = "m" \/ old.t = "m" \/ new.t = "m"
+ReplaceV(ae, s, old, new, count) ==
+    IF ~ae \/ ~AnySafe(s, old, new)
+    THEN S(Replace(StrOf(s), StrOf(old), StrOf(new), count))
+    ELSE M(Replace(EscapeV(s).v, StrOf(old), EscapeV(new).v, count))
+
+\* the C23 clause "only the first `count` occurrences": stated on lengths
+ReplaceCountOK(base, old, new, count, out) ==
+    LET n == OccCount(base, old)
+        k == IF count < 0 THEN n ELSE MinI(count, n)
+    IN /\ Len(out) = Len(base) + k * (Len(new) - Len(old))
+       /\ k = 0 => out = base
+
 (* ---------------------------------------------------------------- truncate *)
 \* `endlen` is the length the cut is computed with, `endtxt` what is appended
 \* (they differ only when the ellipsis has been escaped, C24)
@@ -104,6 +129,30 @@ Format(fmt, args) ==
     ELSE IF fmt[1] = cPCT /\ Len(fmt) >= 2 /\ fmt[2] = cPCT
          THEN <<cPCT>> \o Format(SubSeq(fmt, 3, Len(fmt)), args)
     ELSE <<fmt[1]>> \o Format(Tail(fmt), args)
+
+\* the filter on values: `fmt|format(a1, ..., an)` is `fmt % (a1, ..., an)` -- every positional argument is
+\* ONE item whatever its type (a tuple or a list is printed, not unpacked); the number of %s directives
+\* must be the number of arguments, else TypeError.  Tuples carry the tag "t" (C23 only), lists "l".
+\* ReprOf: texts without quotes, backslashes and control characters; no safe strings inside containers.
+RECURSIVE ReprOf(_)
+ReprOf(a) ==
+    CASE a.t = "s" -> <<cSQ>> \o a.v \o <<cSQ>>
+      [] a.t = "t" -> IF Len(a.v) = 1 THEN <<40>> \o ReprOf(a.v[1]) \o <<44, 41>>
+                      ELSE <<40>> \o JoinSeqs([k \in 1..Len(a.v) |-> ReprOf(a.v[k])], <<44, cSP>>) \o <<41>>
+      [] a.t = "l" -> <<91>> \o JoinSeqs([k \in 1..Len(a.v) |-> ReprOf(a.v[k])], <<44, cSP>>) \o <<93>>
+      [] OTHER -> StrOf(a)
+PrintOf(a) == IF a.t \in {"t", "l"} THEN ReprOf(a) ELSE StrOf(a)
+
+RECURSIVE NDirectives(_)
+NDirectives(fmt) ==
+    IF Len(fmt) < 2 THEN 0
+    ELSE IF fmt[1] = cPCT /\ fmt[2] = cPCT THEN NDirectives(SubSeq(fmt, 3, Len(fmt)))
+    ELSE IF fmt[1] = cPCT /\ fmt[2] = 115 THEN 1 + NDirectives(SubSeq(fmt, 3, Len(fmt)))
+    ELSE NDirectives(Tail(fmt))
+
+FormatV(fmt, args) ==
+    IF NDirectives(fmt) # Len(args) THEN X("TypeError")
+    ELSE S(Format(fmt, [k \in 1..Len(args) |-> PrintOf(args[k])]))
 
 (* -------------------------------------------- center / trim / case / words *)
 Spaces(n) == [k \in 1..n |-> cSP]
